@@ -739,6 +739,11 @@ func (u *UpServer) handle(b []byte, proto string, conn int, qc qctx, reply func(
 				} else {
 					r.An, r.Ns, r.Ar = nil, nil, nil
 				}
+				if act.Arg == 3 {
+					// the bare header, as boxes do that push clients to TCP
+					// without echoing the question: 12 octets, all counts 0
+					r.Q, r.An = nil, nil
+				}
 				b = refdns.Pack(r, refdns.PackOpts{})
 				logReply("tc", ser, key, len(b))
 				s.Fault("up_tc")
